@@ -25,7 +25,7 @@ func init() {
 		Real: "real: all of kvql from /repo's working tree, built with -race; client goroutines are real goroutines; simulated: storage engine (copy-on-write, race-invisible), scheduler (decides who runs at every storage call), callers",
 		NCases: func(tier string) int {
 			if tier == "thorough" {
-				return 60000
+				return 150000
 			}
 			return 2000
 		},
